@@ -417,6 +417,25 @@ pub fn inputs_c07(r: &mut Rng, n: usize, tier: &str, out: &mut dyn Write) {
             }
         }
     }
+    // instants INSIDE an inserted leap second (and inside the ten-second step of 1972), held in the uniform scales: they
+    // have no UTC count, so a conversion that detours through UTC folds them onto the second before
+    {
+        const ACC: [&str; 4] = ["to_et_duration", "to_tdb_duration", "to_jde_et_duration", "to_jde_tdb_duration"];
+        let mut k = 0usize;
+        for (t, d) in leap_ts() {
+            for sub in [0i128, 500_000_000, SEC - 1] {
+                let u = UNIFORM[k % UNIFORM.len()];
+                let dy = DYN[k % 2];
+                let tai = (t + d - 1) * SEC + sub; // inside the inserted second
+                let es = format!("{}:{}", dstr(tai - ref_off(u)), u);
+                writeln!(out, "dyn_acc {} {}", ACC[k % 4], es).unwrap();
+                writeln!(out, "dyn_acc {} {}", ACC[(k + 1) % 4], es).unwrap();
+                writeln!(out, "dyn_to {} {}", es, dy).unwrap();
+                writeln!(out, "dyn_rt {} {}", es, dy).unwrap();
+                k += 1;
+            }
+        }
+    }
     for _ in 0..n {
         let u = *r.pick(&UNIFORM);
         let dy = *r.pick(&DYN);
